@@ -181,6 +181,16 @@ class normalize_chunks:
                         for lim in (8, 64, 1000):
                             yield {"chunks": cs, "shape": (s0, s1, s2), "limit": lim, "dtype": "i4", "previous_chunks": None}
         yield from _multi_auto_domain(tier, rng)
+        # one auto axis with every non-uniform previous layout of a short axis and small limits (u1: bytes == elements)
+        from contracts.slicing import chunkings as _ch
+        for n, prev in _ch(10 if tier == "quick" else 13, zero=False):
+            if n < 2 or len(prev) < 2:
+                continue
+            for lim in (2, 3, 5, 8, 11, 16):
+                yield {"chunks": ("auto",), "shape": (n,), "limit": lim, "dtype": "u1", "previous_chunks": (prev,)}
+        for prev in [(12, 10, 10, 10, 10), (30, 1, 1, 20), (7, 7, 7, 31)]:
+            for lim in (5, 11, 12, 20, 33, 64):
+                yield {"chunks": ("auto",), "shape": (sum(prev),), "limit": lim, "dtype": "u1", "previous_chunks": (prev,)}
         # previous chunks (first: the recorded witness of known finding F4)
         yield {"chunks": ("auto",), "shape": (10,), "limit": 64, "dtype": "f8", "previous_chunks": ((1, 9),)}
         from contracts.slicing import chunkings
